@@ -235,16 +235,38 @@ func ringSimilar(a, b []Point, e float64) bool {
 	if len(a) != len(b) {
 		return false
 	}
-	ia := minPt(a)
-	ib := minPt(b)
-	for i := 0; i < len(a); i++ {
-		if !pointSimilar(a[ia], b[ib], e) {
-			return false
-		}
-		ia = nextPt(ia, len(a))
-		ib = nextPt(ib, len(b))
+	// Align the rings at a fixed anchor of a. The matching vertex of b need
+	// not be b's own anchor: when two vertices tie (or nearly tie) for the
+	// anchor - an axis-parallel left edge - a perturbation smaller than the
+	// tolerance decides which of them it is. So every vertex of b that is
+	// similar to a's anchor is tried as the starting point.
+	if len(a) == 0 {
+		return true
 	}
-	return true
+	ia0 := minPt(a)
+	n := len(b)
+	if n > 1 {
+		n-- // the last point repeats the first
+	}
+	for ib0 := 0; ib0 < n; ib0++ {
+		if !pointSimilar(a[ia0], b[ib0], e) {
+			continue
+		}
+		ia, ib := ia0, ib0
+		match := true
+		for i := 0; i < len(a); i++ {
+			if !pointSimilar(a[ia], b[ib], e) {
+				match = false
+				break
+			}
+			ia = nextPt(ia, len(a))
+			ib = nextPt(ib, len(b))
+		}
+		if match {
+			return true
+		}
+	}
+	return false
 }
 
 // ring iterator function
